@@ -6,7 +6,7 @@ from props.C05 import finish_obligations
 from vlib import run as vrun, build, lean
 
 CANDIDATE_MODS = ["PrimitivModel.Props.C01.Sweep", "PrimitivModel.Props.C01.Move", "PrimitivModel.Props.C01.Arith",
-                  "PrimitivModel.Props.C01.Rules"]
+                  "PrimitivModel.Props.C01.Rules", "PrimitivModel.Props.C01.Chain"]
 
 
 def existing(mods):
@@ -68,6 +68,15 @@ def run(chk):
         if "C01" in getattr(lib, "MODS", {}):
             lib.run_family(chk, "C01")
     finish_obligations(chk)
-    chk.stated_not_proved += ["Graph.tangent_isFDeriv (assembling the per-operator derivative facts into the Fréchet derivative of the composed function: multivariate chain rule over the DAG)"]
+    # The chain rule over the DAG is proved (Props/C01/Chain.lean: Graph.tangent_isDeriv, Graph.backward_is_gradient,
+    # Graph.backward_is_gradient_of_forward) in curve / directional-derivative form over the reals.  What remains:
+    chk.stated_not_proved += [
+        "Graph.backward_is_gradient takes the per-operator curve law (CurveLawAt) and adjoint law (AdjointLawAt) as hypotheses; "
+        "they are instantiated as OpSem semantics only for elementwise unary operators built from a scalar pair with "
+        "IsBackwardOf (unary_curveLaw/unary_adjointLaw; shown for the generated tanh kernels, tanh_laws) and for the elementwise "
+        "product (mul_curveLaw/mul_adjointLaw); the other operator classes are covered by the kernel-level adjoint and derivative "
+        "theorems (Props/C01/Arith.lean, Move.lean) but not yet packaged as OpSem instances of the two laws",
+        "Frechet (norm) formulation not stated: the derivative of the summed target is stated along every differentiable curve of "
+        "parameter values (HasDerivAt in the curve parameter, all directions), which needs no norm on tensors"]
     chk.trusted += ["float32 rounding of gradients is outside every theorem (theorems are over a commutative ring / the reals)",
                     "the finite-difference oracle is a test of the implementation (tolerance 2e-2 relative), not a proof"]
